@@ -452,6 +452,53 @@ fn decorate(r: &mut Rng, bytes: Vec<u8>, desc: &mut String) -> Vec<u8> {
     } else if k < 93 {
         secs.push(custom("producers", &[0]));
         desc.push_str(" +producers(0 fields)");
+    } else if k < 97 {
+        // a name section that can legitimately stand early: (A) without the function-name map, moved to the front or before the
+        // imports; (B) with function names for the *imported* functions only, placed right after the import section
+        if let Some(i) = secs.iter().position(|s| s.0 == 0 && custom_name(&s.1).map_or(false, |n| n.0 == "name")) {
+            let (_, off) = custom_name(&secs[i].1).unwrap();
+            let body = secs[i].1[off..].to_vec();
+            let mut subs: Vec<(u8, Vec<u8>)> = vec![];
+            let mut p = 0;
+            while p < body.len() {
+                let id = body[p];
+                p += 1;
+                let l = match read_leb(&body, &mut p) { Some(l) => l as usize, None => break };
+                if p + l > body.len() { break; }
+                subs.push((id, body[p..p + l].to_vec()));
+                p += l;
+            }
+            let n_imp_funcs = {
+                let mut n = 0u32;
+                for pl in wp::Parser::new(0).parse_all(&bytes) { if let Ok(wp::Payload::ImportSection(rd)) = pl { for im in rd.into_iter().flatten() { if let wp::TypeRef::Func(_) = im.ty { n += 1; } } } }
+                n
+            };
+            let variant_b = r.chance(1, 2) && n_imp_funcs > 0 && secs.iter().any(|s| s.0 == 2);
+            let mut nb = vec![];
+            for (id, b2) in &subs {
+                if *id == 1 {
+                    if !variant_b { continue; }
+                    let mut m = wasm_encoder::NameMap::new();
+                    let rd = wp::NameMap::new(wp::BinaryReader::new(b2, 0));
+                    if let Ok(rd) = rd { for n in rd.into_iter().flatten() { if n.index < n_imp_funcs { m.append(n.index, n.name); } } }
+                    let mut enc = vec![];
+                    wasm_encoder::Encode::encode(&m, &mut enc);
+                    nb.push(1);
+                    leb(enc.len() as u64, &mut nb);
+                    nb.extend_from_slice(&enc);
+                } else if *id == 2 || *id == 3 {
+                    if variant_b { nb.push(*id); leb(b2.len() as u64, &mut nb); nb.extend_from_slice(b2); }
+                    // (A) drops local and label names too: they are attached to functions
+                    else { continue; }
+                } else {
+                    nb.push(*id); leb(b2.len() as u64, &mut nb); nb.extend_from_slice(b2);
+                }
+            }
+            secs.remove(i);
+            let t = if variant_b { secs.iter().position(|x| x.0 == 2).map(|x| x + 1).unwrap_or(0) } else if r.chance(1, 2) { 0 } else { secs.iter().position(|x| x.0 == 2).unwrap_or(0) };
+            secs.insert(t, custom("name", &nb));
+            let _ = write!(desc, " early-name-section({} @{})", if variant_b { "imported function names only" } else { "no function names" }, t);
+        }
     } else {
         // move the name section: before the code section / before the import section / to the front
         if let Some(i) = secs.iter().position(|s| s.0 == 0 && custom_name(&s.1).map_or(false, |n| n.0 == "name")) {
